@@ -654,3 +654,169 @@ Proof.
     unfold slot_get in H'. cbn in H'. discriminate.
   - intros h x H. destruct (cd _ _ H) as [H'|H']; [discriminate|exact H'].
 Qed.
+
+(* ---------------------------------------------------------------- Part 2: rejected responses *)
+(* the range markers and the response being filled *)
+Definition core (t : atask) := (t_next t, t_last t, t_res t, t_done t, t_completed t).
+Definition sub_marks (t : atask) : list (N * list (N * N)) :=
+  map (fun '(a, l) => (a, map (fun st => (st_next st, st_last st)) l)) (t_subs t).
+
+(* an event that the handlers reject: failed proof, entirely empty response, malformed storage
+   response, empty or unmatched bytecode response, timeout *)
+Definition rejected (s : syncer) (e : event) : Prop :=
+  match e with
+  | EAcc id items hp ok _ => ok = false \/ (items = [] /\ hp = false)
+  | ESto id sets hp lm ok _ => ok = false \/ lm = true \/ (sets = [] /\ hp = false)
+  | ECode id codes => codes = [] \/ forall q rest, take_req id (s_reqs s) = Some (q, rest) -> match_codes (q_hashes q) codes = None
+  | ETimeout _ => True
+  | _ => False
+  end.
+
+Lemma on_task_revert_core q last : forall ts db ts' db' p,
+  on_task last (revert q) ts db = (ts', db', p) -> db' = db /\ map core ts' = map core ts /\ p = false.
+Proof.
+  induction ts as [|t r IH]; intros db ts' db' p H; cbn [on_task] in H.
+  - inversion H. auto.
+  - destruct (t_last t =? last).
+    + destruct (revert q t db) as [[t1 d1] p1] eqn:E. inversion H. subst.
+      unfold revert in E. destruct (q_kind q).
+      * inversion E. subst. auto.
+      * inversion E. subst. auto.
+      * destruct (q_sub q) as [[sa sl]|]; inversion E; subst; auto.
+    + destruct (on_task last (revert q) r db) as [[r1 d1] p1] eqn:E. inversion H. subst.
+      destruct (IH _ _ _ _ E) as (-> & E2 & ->). cbn [map]. rewrite E2. auto.
+Qed.
+
+(* progress_monotone, second half: a rejected / empty / timed-out response, or a response to a
+   request that is not (or no longer) tracked (stale, duplicate), changes neither the flat state
+   nor any Next/Last marker nor any response being filled. *)
+Theorem rejected_changes_nothing c s e :
+  rejected s e \/ (forall id, (match e with EAcc i _ _ _ _ | ESto i _ _ _ _ _ | ECode i _ | ETimeout i => i = id | _ => False end) ->
+                   take_req id (s_reqs s) = None) ->
+  s_db (handle c s e) = s_db s /\ map core (s_tasks (handle c s e)) = map core (s_tasks s)
+  /\ s_panic (handle c s e) = s_panic s.
+Proof.
+  assert (REV : forall q rest,
+    s_db (with_tasks s rest (on_task (q_task q) (revert q) (s_tasks s) (s_db s))) = s_db s /\
+    map core (s_tasks (with_tasks s rest (on_task (q_task q) (revert q) (s_tasks s) (s_db s)))) = map core (s_tasks s) /\
+    s_panic (with_tasks s rest (on_task (q_task q) (revert q) (s_tasks s) (s_db s))) = s_panic s).
+  { intros q rest. destruct (on_task _ _ _ _) as [[ts db] p] eqn:E.
+    destruct (on_task_revert_core _ _ _ _ _ _ _ E) as (-> & E2 & ->).
+    cbn [with_tasks s_db s_tasks s_panic]. rewrite orb_false_r. auto. }
+  intros [R|ST]; unfold handle.
+  - destruct e as [id items hp ok more|id sets hp lm ok more|id codes|id|root| |]; cbn [rejected] in R; try contradiction.
+    + destruct (take_req id (s_reqs s)) as [[q rest]|]; [|auto].
+      destruct (q_kind q); auto.
+      assert (EB : (match items with [] => negb hp | _ => false end) || negb ok = true).
+      { destruct R as [->|[-> ->]]; [apply orb_true_r|reflexivity]. }
+      rewrite EB. apply REV.
+    + destruct (take_req id (s_reqs s)) as [[q rest]|]; [|auto].
+      destruct (q_kind q); auto.
+      assert (EB : lm || (length (q_accounts q) <? length sets)%nat
+                   || (match sets with [] => negb hp | _ => false end) || negb ok = true).
+      { destruct R as [->|[->|[-> ->]]]; [apply orb_true_r|reflexivity|].
+        cbn [negb]. rewrite orb_true_r. reflexivity. }
+      rewrite EB. apply REV.
+    + destruct (take_req id (s_reqs s)) as [[q rest]|] eqn:T; [|auto].
+      destruct (q_kind q); auto.
+      destruct R as [->|R]; [apply REV|].
+      destruct codes as [|x l]; [apply REV|].
+      rewrite (R q rest eq_refl). apply REV.
+    + destruct (take_req id (s_reqs s)) as [[q rest]|]; [apply REV|auto].
+  - destruct e as [id items hp ok more|id sets hp lm ok more|id codes|id|root| |]; auto;
+      rewrite (ST id eq_refl); auto.
+Qed.
+
+(* ---------------------------------------------------------------- Part 3: forwardAccountTask *)
+(* progress_monotone, first half, for the one operation that moves Next: the new marker is the old
+   one or the successor of a delivered key, everything written lies below the new marker's key, and
+   the task is flagged done only when the whole response was persisted and it had no continuation *)
+Lemma advance_spec items : forall nc ns next cp next' cp' al,
+  advance items nc ns next cp = (next', cp', al) ->
+  next' = next \/ exists k a, In (k, a) items /\ next' = inc_hash k.
+Proof.
+  induction items as [|[h a] r IH]; intros nc ns next cp next' cp' al H; cbn [advance] in H.
+  - inversion H. auto.
+  - destruct nc as [|c nc']; [inversion H; auto|].
+    destruct ns as [|s ns']; [inversion H; auto|].
+    destruct (c || s); [inversion H; auto|].
+    destruct (IH _ _ _ _ _ _ _ H) as [->|(k & a0 & Hin & ->)].
+    + right. exists h, a. split; [left; reflexivity|reflexivity].
+    + right. exists k, a0. split; [right; exact Hin|reflexivity].
+Qed.
+
+Theorem forward_next t db t' db' p :
+  forward t db = (t', db', p) ->
+  t_last t' = t_last t /\
+  (t_next t' = t_next t \/
+   exists res k a, t_res t = Some res /\ In (k, a) (r_items res) /\ t_next t' = inc_hash k).
+Proof.
+  unfold forward. destruct (t_res t) as [res|] eqn:E.
+  - destruct (write_prefix _ _ _ _) as [d1 p1]. destruct p1.
+    + intros H. inversion H. subst. cbn [set_core t_last t_next]. auto.
+    + destruct (advance _ _ _ _ _) as [[n cp] al] eqn:AD.
+      destruct (advance_spec _ _ _ _ _ _ _ _ AD) as [->|(k & a & Hin & ->)];
+        destruct al; intros H; inversion H; subst; cbn [set_core t_last t_next]; split; auto;
+        right; exists res, k, a; auto.
+  - intros H. inversion H. subst. auto.
+Qed.
+
+(* with the verifier's contract on the response being filled (keys strictly below 2^256-1 or the
+   task is finished, and not below the task's Next) the marker never moves backwards *)
+Theorem forward_monotone t db t' db' p :
+  (forall res k a, t_res t = Some res -> In (k, a) (r_items res) -> t_next t <= k /\ k < MAXH) ->
+  forward t db = (t', db', p) -> t_next t <= t_next t'.
+Proof.
+  intros HW H. destruct (forward_next _ _ _ _ _ H) as [_ [->|(res & k & a & E & Hin & ->)]].
+  - apply N.le_refl.
+  - destruct (HW _ _ _ E Hin) as [H1 H2]. unfold inc_hash.
+    destruct (k =? MAXH) eqn:EM; [apply N.eqb_eq in EM; lia|lia].
+Qed.
+
+(* ---------------------------------------------------------------- a concrete history (non-vacuity) *)
+(* two account chunks, a three-account target with one contract (two slots, one code); a corrupted
+   response is rejected first, a stale one ignored, then honest responses complete the sync *)
+Definition ex_cfg : config := {| c_acc := 2; c_sto := 2 |}.
+Definition ex_a1 : acct := {| a_blob := [1]; a_root := EMPTY_ROOT; a_code := EMPTY_CODE |}.
+Definition ex_a2 : acct := {| a_blob := [2]; a_root := 77; a_code := 99 |}.
+Definition ex_a3 : acct := {| a_blob := [3]; a_root := EMPTY_ROOT; a_code := EMPTY_CODE |}.
+Definition ex_hi : N := 2 ^ 255 + 5.
+Definition ex_events : list event :=
+  [ EAcc 0 [(5, {| a_blob := [9]; a_root := EMPTY_ROOT; a_code := EMPTY_CODE |})] true false false;  (* rejected *)
+    EAcc 0 [(5, ex_a1)] true true false;                                                            (* stale id *)
+    EAcc 2 [(5, ex_a1); (7, ex_a2)] true true false;
+    EAcc 1 [(ex_hi, ex_a3)] true true false;
+    ECode 3 [(99, [96; 0])];
+    ESto 4 [[(1, [42]); (2, [43])]] false false true false;
+    EComplete ].
+Definition ex_final : syncer := run ex_cfg 1 ex_events.
+Definition c47_example_check : bool :=
+  match s_tasks ex_final, s_panic ex_final with
+  | [], false =>
+      match d_acc (s_db ex_final), d_slot (s_db ex_final), d_code (s_db ex_final) with
+      | [(5, [1]); (7, [2]); (k3, [3])], [(7, [(1, [42]); (2, [43])])], [(99, [96; 0])] => k3 =? ex_hi
+      | _, _, _ => false
+      end
+  | _, _ => false
+  end.
+
+(* ---------------------------------------------------------------- soundness half of complete_implies_equal *)
+(* If every ACCEPTED response of the history only carries items of the target (the soundness of the
+   range verifier against the pivot root / the account's storage root, and Keccak preimage
+   resistance for codes), the local flat state is a subset of the target after any history. *)
+Theorem stored_subset_target c root evs
+    (TA : N -> bytes -> Prop) (TS : N -> bytes -> Prop) (TC : N -> bytes -> Prop) :
+  (forall e k v, In e evs -> ev_acc e k v -> TA k v) ->
+  (forall e k v, In e evs -> ev_slot e k v -> TS k v) ->
+  (forall e h x, In e evs -> ev_code e h x -> TC h x) ->
+  let s := run c root evs in
+  (forall k v, get k (d_acc (s_db s)) = Some v -> TA k v) /\
+  (forall a k v, slot_get a k (s_db s) = Some v -> TS k v) /\
+  (forall h x, get h (d_code (s_db s)) = Some x -> TC h x).
+Proof.
+  intros HA HS HC. cbn zeta. destruct (only_verified_stored c root evs) as (a & s & cd).
+  split; [|split].
+  - intros k v H. destruct (a _ _ H) as (e & Hin & He). eapply HA; eauto.
+  - intros x k v H. destruct (s _ _ _ H) as (e & Hin & He). eapply HS; eauto.
+  - intros h x H. destruct (cd _ _ H) as (e & Hin & He). eapply HC; eauto.
+Qed.
